@@ -176,10 +176,11 @@ type ReplayResult struct {
 	Panic    string   `json:"panic"`
 	Consumed int      `json:"consumed"`
 	Err      string   `json:"err,omitempty"`
+	Race     bool     `json:"race,omitempty"`
 }
 
 // replayNative runs the harness natively with the counterexample.
-func (d *Driver) replayNative(pkgRel, cexPath string, race bool) ReplayResult {
+func (d *Driver) replayNative(pkgRel, cexPath string, race bool) (r ReplayResult) {
 	out := cexPath + ".result.json"
 	os.Remove(out)
 	args := []string{"test", "-vet=off", "-count=1", "-overlay", d.overlayJSON, "-run", "^TestVerifReplay$"}
@@ -191,7 +192,7 @@ func (d *Driver) replayNative(pkgRel, cexPath string, race bool) ReplayResult {
 	cmd.Dir = d.repo
 	cmd.Env = append(os.Environ(), "GOFLAGS=-mod=mod", "GOPROXY=off", "VERIF_CEX="+cexPath, "VERIF_OUT="+out)
 	b, err := cmd.CombinedOutput()
-	var r ReplayResult
+	defer func() { r.Race = strings.Contains(string(b), "DATA RACE") || strings.Contains(string(b), "concurrent map") }()
 	rb, rerr := os.ReadFile(out)
 	if rerr != nil {
 		r.Err = fmt.Sprintf("replay produced no result: %v\n%s", err, tail(string(b), 2000))
@@ -440,8 +441,11 @@ func (d *Driver) check(id string) int {
 		if d.noReplay {
 			g.status = "unreplayed"
 		} else {
-			g.replayed = d.replayNative(c.Pkg, g.cexPath, false)
+			isLockset := strings.HasPrefix(g.f.Label, "lock-discipline/")
+			g.replayed = d.replayNative(c.Pkg, g.cexPath, isLockset)
 			switch {
+			case isLockset && g.replayed.Race:
+				g.status = "confirmed"
 			case g.replayed.Err != "":
 				g.status = "unconfirmed"
 				g.what = g.replayed.Err
